@@ -36,6 +36,9 @@ def arg2txt(a):
                 if a[x86_afs.size] == r*c:
                     if a[reg_no] != c:
                         raise ValueError("Count is %d instead of %d"%(a[reg_no],c))
+                    if reg_no >= len(reglist_for_size[r]):
+                        # control/debug registers cannot be part of an address
+                        raise ValueError("Register %#x in an expression"%reg_no)
                     if c==1:
                         return reglist_for_size[r][reg_no]
                     return "%s*%d"%(reglist_for_size[r][reg_no],c)
